@@ -122,11 +122,18 @@ func ckksEvalOps() []op {
 func schemeCases() []copyCase {
 	var cs []copyCase
 	buildBgv := func(e *env, cfg string) interface{} {
+		if cfg == "latekeys" {
+			// Galois keys added to the key set after the evaluator was created (none present at creation)
+			ks := rlwe.NewMemEvaluationKeySet(e.evk.RelinearizationKey)
+			ev := bgv.NewEvaluator(e.bgvP, ks, false)
+			addGaloisKeys(e, ks)
+			return ev
+		}
 		return bgv.NewEvaluator(e.bgvP, e.evk, cfg == "scale-invariant")
 	}
 	cs = append(cs,
 		copyCase{name: "bgv.Evaluator.ShallowCopy", envKind: "bgv", kind: shallow, concurrent: true,
-			configs: []string{"bgv", "scale-invariant"}, build: buildBgv,
+			configs: []string{"bgv", "scale-invariant", "latekeys"}, build: buildBgv,
 			copy: func(e *env, o interface{}) interface{} { return o.(*bgv.Evaluator).ShallowCopy() }, ops: bgvEvalOps()},
 		copyCase{name: "bgv.Evaluator.WithKey", envKind: "bgv", kind: rebind,
 			configs: []string{"bgv", "scale-invariant"}, build: buildBgv,
@@ -167,10 +174,18 @@ func schemeCases() []copyCase {
 	)
 	for _, kind := range []string{"ckks", "ckks-ci"} {
 		kind := kind
-		buildCk := func(e *env, cfg string) interface{} { return ckks.NewEvaluator(e.ckkP, e.evk) }
+		buildCk := func(e *env, cfg string) interface{} {
+			if cfg == "latekeys" {
+				ks := rlwe.NewMemEvaluationKeySet(e.evk.RelinearizationKey)
+				ev := ckks.NewEvaluator(e.ckkP, ks)
+				addGaloisKeys(e, ks)
+				return ev
+			}
+			return ckks.NewEvaluator(e.ckkP, e.evk)
+		}
 		cs = append(cs,
 			copyCase{name: kind + ".Evaluator.ShallowCopy", envKind: kind, kind: shallow, concurrent: true,
-				configs: []string{"default"}, build: buildCk,
+				configs: []string{"default", "latekeys"}, build: buildCk,
 				copy: func(e *env, o interface{}) interface{} { return o.(*ckks.Evaluator).ShallowCopy() }, ops: ckksEvalOps()},
 			copyCase{name: kind + ".Evaluator.WithKey", envKind: kind, kind: rebind,
 				configs: []string{"default"}, build: buildCk,
